@@ -52,27 +52,21 @@ HARNESS_TO_CLASSES.update({
 })
 
 
-# Classes of the UNCHANGED tree whose round trip fails, reported to the lead and waiting for the decision between a fix
-# and a known finding.  Until then they are printed as FINDING-CANDIDATE lines (stable key roundtrip:<Class>:<what>,
-# replay file written) and do not fail the check.  An entry is dropped from here as soon as known_findings.json has a
-# matching entry (then the ordinary KNOWN-FINDING path takes over) or the class is fixed.
-PENDING_DECISION = {
-    "RVEA": ("roundtrip:RVEA:state-not-streamed",
-             "RVEA declares `template<class Archive> void serialize(Archive&)` (ONE parameter) instead of read()/write(): Boost never calls it, "
-             "it hides ISerializable::serialize so that `archive << rvea` does not compile, and through an ISerializable&/AbstractOptimizer& "
-             "reference the empty default read()/write() run: nothing is written, the restored optimizer keeps the fresh object's state"),
-    "MOEAD": ("roundtrip:MOEAD:state-not-streamed",
-              "MOEAD: same as RVEA (one-parameter serialize(Archive&) that nothing calls; empty inherited read()/write())"),
-    "VDCMA": ("roundtrip:VDCMA:state-not-streamed",
-              "VDCMA (an AbstractSingleObjectiveOptimizer, hence ISerializable) defines neither read() nor write(): `archive << vdcma` compiles, "
-              "writes nothing, and the restored optimizer keeps the fresh object's mean/sigma/paths"),
+# Classes whose archive is EMPTY by construction: the translator finds no read()/write() that Boost or ISerializable would
+# ever call.  Their harness failures are reported under the stable key roundtrip:<Class>:state-not-streamed (registered by
+# the lead as known findings C18-MOOSER / C18-NOSTATE for the five classes of the unchanged tree; any further class of this
+# kind is an ordinary VIOLATION).
+STATE_NOT_STREAMED_WHY = {
+    "RVEA": "RVEA declares `template<class Archive> void serialize(Archive&)` (ONE parameter) instead of read()/write(): Boost never calls it, "
+            "it hides ISerializable::serialize so that `archive << rvea` does not compile, and through an ISerializable&/AbstractOptimizer& "
+            "reference the empty default read()/write() run: nothing is written, the restored optimizer keeps the fresh object's state",
+    "MOEAD": "MOEAD: same as RVEA (one-parameter serialize(Archive&) that nothing calls; empty inherited read()/write())",
 }
-# optimizers (descendants of AbstractOptimizer) that the translator finds WITHOUT any read()/write() of their own or of a
-# base other than ISerializable and that have no harness case (abstract, or header does not compile)
-PENDING_UNSTREAMED_OPTIMIZERS = {
-    "LMCMA": "roundtrip:LMCMA:state-not-streamed",                 # header does not compile (LMCMA.h:370 unqualified gauss), no harness case
-    "TrustRegionNewton": "roundtrip:TrustRegionNewton:state-not-streamed",   # abstract in this tree (cannot be instantiated)
-}
+ONE_PARAMETER_SERIALIZE = ("RVEA", "MOEAD")      # optimizers among translate_serial.EXCLUDED ("one-parameter serialize(Archive&) that nothing calls")
+
+
+def state_key(cls):
+    return "roundtrip:%s:state-not-streamed" % cls
 
 
 def unstreamed_optimizers(classes, texts):
@@ -440,45 +434,35 @@ def main():
     bad = [h for h in hres if h["status"] not in ("OK",)]
     skipped = [h for h in bad if h["status"] == "SKIP"]
     bad = [h for h in bad if h["status"] != "SKIP"]
-    # ---- finding candidates waiting for the lead's decision
-    cand = []
-    for pcls, (pkey, pwhy) in sorted(PENDING_DECISION.items()):
+    # ---- classes whose archive is empty by construction (no read()/write() that is ever called): one finding per class
+    uns = unstreamed_optimizers(TS.ALL_CLASSES[0], TS.ALL_TEXTS[0])
+    empty_archive = sorted(set([c for c in ONE_PARAMETER_SERIALIZE if c in TS.EXCLUDED and c in TS.ALL_CLASSES[0]] + uns))
+    ck.notes["optimizers_without_read_write"] = empty_archive
+    for pcls in empty_archive:
+        pkey = state_key(pcls)
+        pwhy = STATE_NOT_STREAMED_WHY.get(pcls, "optimizer %s has data members but neither it nor a base below ISerializable defines read()/write(): "
+                                                "the archive of such an object is empty and a restored optimizer keeps the fresh object's state" % pcls)
         hs = [h for h in bad if re.sub(r"<.*$", "", h["cls"]) == pcls]
         ran = [h for h in hres if re.sub(r"<.*$", "", h["cls"]) == pcls]
-        if not hs:
-            if ran: log("[C18] note: PENDING_DECISION entry %s no longer fails (%d cases OK): remove it" % (pcls, len(ran)))
-            continue
         bad = [h for h in bad if h not in hs]
+        if ran and not hs:
+            log("[C18] note: %s streams nothing by the translator's reading, but its %d harness cases are OK" % (pcls, len(ran)))
         seen = set(); pick = []
         for h in hs:
             if (h["var"], h["fmt"]) not in seen and len(pick) < 8:
                 seen.add((h["var"], h["fmt"])); pick.append(h)
-        cf = ck.write_replay("candidate_%s.txt" % pcls, "\n".join(x["case"] for x in pick) + "\n")
-        rp = {"key": pkey, "case_file": cf, "cases": [x["case"] for x in pick],
-              "observed": [x["case"] + " " + x["status"] + " " + x["rest"] for x in pick], "failing_cases_total": len(hs),
-              "expected": "restored object identical to the original on every observable (exact comparison)", "why": pwhy,
-              "replay_cmd": "python3 tools/c18.py --replay %s" % cf}
-        if ck.match_known(pkey) is not None:
-            ck.violation(pkey, rp, pwhy)          # registered: ordinary known-finding path
+        rp = {"key": pkey, "class": pcls, "why": pwhy, "failing_cases_total": len(hs), "cases_run": len(ran),
+              "expected": "restored object identical to the original on every observable (exact comparison)"}
+        if pick:
+            cf = ck.write_replay("candidate_%s.txt" % pcls, "\n".join(x["case"] for x in pick) + "\n")
+            rp.update({"case_file": cf, "cases": [x["case"] for x in pick], "observed": [x["case"] + " " + x["status"] + " " + x["rest"] for x in pick],
+                       "replay_cmd": "python3 tools/c18.py --replay %s" % cf})
+            pwhy += " | %d/%d harness cases differ, e.g. %s %s %s" % (len(hs), len(ran), pick[0]["case"], pick[0]["status"], pick[0]["rest"][:120])
         else:
-            ck.write_replay("candidate_%s.json" % pcls, rp)
-            print("FINDING-CANDIDATE property=%s key=%s replay=%s failing=%d/%d e.g. %s %s %s" % (
-                PID, pkey, cf, len(hs), len(ran), pick[0]["case"], pick[0]["status"], pick[0]["rest"][:120]), flush=True)
-            log("  -> " + pwhy)
-        cand.append({"key": pkey, "class": pcls, "failing": len(hs), "of": len(ran), "example": pick[0]["case"] + " " + pick[0]["status"] + " " + pick[0]["rest"][:200]})
-    # optimizers without any read()/write(): every one must be accounted for (harness case above, or listed)
-    uns = unstreamed_optimizers(TS.ALL_CLASSES[0], TS.ALL_TEXTS[0])
-    for u in uns:
-        if u in PENDING_DECISION: continue
-        key = PENDING_UNSTREAMED_OPTIMIZERS.get(u, "roundtrip:%s:state-not-streamed" % u)
-        rp = {"key": key, "class": u, "detail": "optimizer %s has data members but neither it nor a base below ISerializable defines read()/write(): the archive of such an object is empty" % u}
-        if u in PENDING_UNSTREAMED_OPTIMIZERS and ck.match_known(key) is None:
-            print("FINDING-CANDIDATE property=%s key=%s (no harness case: %s) %s" % (PID, key, "see PENDING_UNSTREAMED_OPTIMIZERS", rp["detail"]), flush=True)
-            cand.append({"key": key, "class": u, "failing": 0, "of": 0, "example": rp["detail"]})
-        else:
-            ck.violation(key, rp, rp["detail"], no_input=(ck.match_known(key) is None))
-    ck.notes["finding_candidates_pending_decision"] = cand
-    ck.notes["optimizers_without_read_write"] = uns
+            rp["note"] = "no harness case (class cannot be instantiated in this tree): translator obligation only"
+        # a registered class goes the known-finding path; an unregistered one is a violation (without a failing input when
+        # there is no harness case)
+        ck.violation(pkey, rp, pwhy, no_input=(not pick and ck.match_known(pkey) is None))
     reported = set()
     def covered_by(hcls):
         base = re.sub(r"<.*$", "", hcls)
